@@ -22,6 +22,7 @@ type gen struct {
 	kindsOff     map[string]bool
 	writerFaults float64
 	thorough     bool
+	typeStorm    bool // many operands of many distinct Go types (per-type caches fill and turn over)
 }
 
 var basePieces = []string{
@@ -38,6 +39,7 @@ func newGen(seed int64, tier string) *gen {
 	g.maxDepth = 1 + r.Intn(3)
 	g.bigRate = []float64{0, 0, 0.01, 0.04}[r.Intn(4)]
 	g.writerFaults = []float64{0, 0.1, 0.25}[r.Intn(3)]
+	g.typeStorm = r.Intn(4) == 0
 	// payload alphabet: a random subset of the pieces, with repeats as weights
 	n := 3 + r.Intn(len(basePieces))
 	for i := 0; i < n; i++ {
@@ -133,6 +135,9 @@ func (g *gen) simple() Val {
 // argument of a print call (pointers to structs print their address
 // anywhere else, which would not be stable across processes).
 func (g *gen) val(depth int, top bool) Val {
+	if g.typeStorm && g.chance(0.4) {
+		return Val{K: "arrn", I: int64(g.r.Intn(1500))}
+	}
 	x := g.r.Intn(100)
 	switch {
 	case x < 38:
